@@ -73,7 +73,7 @@ type c12Ev struct {
 }
 
 func runC12(c *mon.Ctx) {
-	c.Each("files", c.N(300, 4000), func(i int64, r *mon.Rand) {
+	c.Each("files", c.N(300, 30_000), func(i int64, r *mon.Rand) {
 		nt := r.Range(1, 5)
 		res := int64(r.Pick(24, 96, 480))
 		tm := &ref.TempoMap{Resolution: res}
